@@ -82,6 +82,10 @@ def required_space_between(before, after):
             return True
         if last == '/' and len(before) > 1:
             return True
+        # nor may they directly follow a numeric literal (section 7.8.3),
+        # which matters for the ones that end with a dot: `1. in x`
+        if last == '.' and before[:1].isdigit():
+            return True
     # a division followed by a regular expression literal would start
     # a comment: `a / /re/` -> `a//re/`
     return last == '/' and first == '/'
